@@ -211,8 +211,6 @@ class AceGroup(AceBase, Group):
 
         for item in self._items:
             item.type = self._type
-            if self._platform == "nxos":
-                self.ungroup_ports()
             item.platform = self._platform
 
         data = self.data(uuid=True)
